@@ -47,7 +47,7 @@ RULE = ("operation sequences over producer ops {feed_data (sizes 0,1,2,3 and lim
         "A case is non-trivial when at least one byte is delivered or a reader blocks; distinct by content. "
         "Server-connection class: the real web.Server protocol over an in-memory transport that honours pause_reading(): 0..35 pipelined GETs + a POST "
         "whose body (sizes around the water marks of read_bufsize 16/64/256) arrives in segments, handlers released in batches, the POST "
-        "handler reading nothing/part/all; 35% of the cases force both pause reasons (full request queue and body above high water) at once.")
+        "handler reading nothing/part/all; 35% of the cases force both pause reasons (full request queue and body above high water) at once; a second family sends bodies several times the high-water mark in one read as many HTTP chunks and/or gzip/deflate-coded (the payload parser keeps input back while paused and refills the stream from inside resume_reading()), drained by the handler in steps below the low-water mark with the oracle evaluated after every read.")
 TRUSTED_BASE = [
     "the server-connection class (web_protocol.RequestHandler: request-queue pause + body-stream pause on one transport) is not modelled in Lean: it is judged by the direct oracle only (transport reading => body stream <= high water; blocked handler => transport not paused; exact delivery), on the real web.Server protocol",
     "the entry check of StreamReader._wait() (raise a recorded exception before parking) is not a model flag: blocked_implies_no_exception proves it unreachable without re-entrant feeding once the wake-up re-check is present",
@@ -846,7 +846,8 @@ def check_server(ctx):
     """second pause reason: the real server protocol (pipelined-request queue + body stream on one transport)"""
     from .common import c08_server as cs
     cases = list(cs.DIRECTED) + [cs.gen_case(ctx.rng, i) for i in range(250 if ctx.quick else 3000)]
-    both = over = 0
+    cases += [cs.gen_kept_back(ctx.rng, i) for i in range(200 if ctx.quick else 2500)]
+    both = over = repaused = 0
     for i, c in enumerate(cases):
         viol, info = cs.run(c)
         both += 1 if info.get("paused_both") else 0
@@ -854,16 +855,21 @@ def check_server(ctx):
         ctx.case(("server", c), nontrivial=bool(info.get("sent")) or c["n_get"] > 0,
                  sample={"server": {k: c[k] for k in ("rb", "n_get", "total", "first", "reader")}, "steps": c["steps"][:8],
                          "info": info} if i % 97 == 0 else None)
-        ctx.hit("gen:server", "server:reader-" + c["reader"])
+        ctx.hit("gen:server", "server:reader-" + c["reader"],
+                "server:body-" + c.get("framing", "length") + "-" + (c.get("coding") or "identity"))
+        if c.get("framing") and info.get("pauses", 0) >= 3:
+            repaused += 1
+            ctx.hit("server:paused-again-while-draining")
         if info.get("paused_both"): ctx.hit("server:both-pause-reasons-active")
         if info.get("post_done"): ctx.hit("server:body-read-to-end")
         for sig, detail in viol:
             ctx.violation(sig, c, detail)
     ctx.extra["server_connection_scenarios"] = {"cases": len(cases), "with_both_pause_reasons_active": both,
-                                                "with_body_above_high_water": over}
-    if not both or not over:
+                                                "with_body_above_high_water": over,
+                                                "kept_back_input_paused_3_times_or_more": repaused}
+    if not both or not over or not repaused:
         from .common.guard import MachineryError
-        raise MachineryError("server-connection generator never had both pause reasons active / a body above high water")
+        raise MachineryError("server-connection generator never had both pause reasons active / a body above high water / a parser keeping input back")
 
 
 def replay(ctx, case):
